@@ -40,6 +40,7 @@ Gen<Case> makeGraphGen(const Cfg &cfg) {
     int ringPct = (int)cfgInt(cfg, "ring_pct", 0); // percentage of cases with 150..200 vertices each joined to the next 40..60 (thousands of edges)
     int sets = (int)cfgInt(cfg, "sets", 0); // percentage of `w` entries (value set through setEdgeWeight / setEdgeMultiplicity / setEdgeLabel) among the edge ops
     bool fresh = cfgInt(cfg, "fresh", 0) != 0; // every case in a forked child, several classes in a generated order
+    int prefill = (int)cfgInt(cfg, "prefill", 0); // C13/C14 round trips: percentage of cases whose output path already holds a file (junk or well-formed)
     int forced = (int)cfgInt(cfg, "forced", 0); // percentage of forced (duplicate-creating) adds // percentage of `r` (removeEdge) entries among the edge ops
     return gen::exec([=]() {
         std::string cl = *gen::resize(kNominalSize, gen::elementOf(classes));
@@ -76,6 +77,8 @@ Gen<Case> makeGraphGen(const Cfg &cfg) {
             c.set("orderkey", S(*uni(0, 50)));
             c.set("churn", S(*wel({{8, 0}, {3, 40}, {2, 300}, {2, 20000}, {1, 70000}})));
         }
+        if (prefill > 0 && *uni(0, 100) < prefill)
+            c.set("prefill", S(*uni(1, 4)));
         if (pads && *uni(0, 4) == 0) {
             c.set("pad_front", S(*uni(0, 3)));
             c.set("pad_back", S(*uni(0, 3)));
@@ -141,6 +144,9 @@ Gen<Case> makeFamilyGen(const Cfg &cfg) {
     std::vector<std::string> fams = splitList(cfgGet(cfg, "families", "layered;grid;cdag;ladder;diamonds;looppath;tristrip;cliquechain"), ';');
     std::string prop = cfgGet(cfg, "prop", "C19");
     std::string extra = cfgGet(cfg, "extra", "");
+    // small=1 (C11): sizes at which every pair has at most 4^7 shortest paths, so that the complete path sets
+    // can be listed and compared with the reference enumeration
+    bool small = cfgGet(cfg, "small", "0") == "1";
     return gen::exec([=]() {
         std::string cl = *gen::resize(kNominalSize, gen::elementOf(classes));
         auto parts = splitList(cl, ':');
@@ -156,7 +162,16 @@ Gen<Case> makeFamilyGen(const Cfg &cfg) {
         std::string fam = *gen::resize(kNominalSize, gen::elementOf(fams));
         c.set("family", fam);
         int a = 2, b = 4;
-        if (fam == "layered") { a = *uni(2, 5); b = *uni(2, 41); }
+        if (small) {
+            if (fam == "layered") { a = *uni(2, 5); b = *uni(2, a == 4 ? 7 : 9); }
+            else if (fam == "grid") { a = *uni(2, 8); b = *uni(2, 8); }
+            else if (fam == "cdag") { a = *uni(2, 13); b = 0; }
+            else if (fam == "ladder") { a = *uni(2, 9); b = 0; }
+            else if (fam == "diamonds") { a = *uni(2, 5); b = *uni(2, a == 4 ? 7 : 9); }
+            else if (fam == "looppath") { a = *uni(2, 21); b = 0; }
+            else if (fam == "tristrip") { a = *uni(3, 21); b = 0; }
+            else if (fam == "cliquechain") { a = *uni(2, 6); b = *uni(1, 6); }
+        } else if (fam == "layered") { a = *uni(2, 5); b = *uni(2, 41); }
         else if (fam == "grid") { a = *uni(2, 11); b = *uni(2, 11); }
         else if (fam == "cdag") { a = *uni(2, 31); b = 0; }
         else if (fam == "ladder") { a = *uni(2, 41); b = 0; }
